@@ -1,6 +1,6 @@
 /-
 C17 — personalisation returns one aligned, finite, non-worsening estimate per subject.
-Property theorems only.  Model: `Model/Personalize.lean` (+ `Model/IndParams.lean` for `from_pytorch`).
+Property theorems only.  Models: `Model/Personalize.lean` (+ `Model/IndParams.lean` for `from_pytorch`), `Model/Scalings.lean`.
 
 Proved here (for every chain length, burn-in length, cohort, by induction):
   * which draws are kept, and how many (`kept_eq_drop`, `kept_count`);
@@ -11,15 +11,39 @@ Proved here (for every chain length, burn-in length, cohort, by induction):
   * `from_pytorch(dataset.indices, …)` keys the i-th estimate by the i-th identifier, in order, with the
     tensor's width as shape (`align_ids_order_shape`, `align_empty_cohort`).
 
+Optimisation-based personalisation, the prior-standardized coordinates (`Model/Scalings.lean`: `_AffineScaling`,
+`_AffineScalings1D`, `obj_no_jac`, `_get_individual_parameters_patient` of scipy_minimize.py), for any number of
+variables and any dimensions, by induction:
+  * what the constructor accepts (`mk_valid`), 0-d priors become dimension 1 (`fromLatent_scalar_prior`);
+  * the slices carry the names in order, run between cumulative dimensions, and partition `[0, len)` in order
+    (`slices_names`, `slices_start_stop`, `slices_widths`, `slices_partition`);
+  * `stack` / `unstack` are inverse bijections between well-shaped points and vectors of length `len`
+    (`stack_shaped`, `unstack_stack`, `stack_unstack`); a missing variable is refused, order and extra entries of the
+    mapping are irrelevant (`stack_missing_name`, `stack_lookup_only`);
+  * `scaling` / `unscaling` are the coordinate-wise maps `(x − loc)/scale`, `loc + scale·v` on the stacked vector
+    (`scaling_coordinatewise`, `unscaling_coordinatewise`, shapes: `scaling_shape`, `unscaling_shape`), inverse of each
+    other when no scale entry is zero (`unscaling_scaling`, `scaling_unscaling`);
+  * optimising in standardized coordinates is the same problem (`transfer_to_natural`, `transfer_to_standardized`);
+    the optimiser starts at 0 when the initial values are the prior modes (`start_point_zero`);
+  * with the optimiser as a parameter: if it does not worsen the objective it is handed, the returned parameters are
+    not worse than the initial ones in natural coordinates (`patient_not_worse`); if it minimises, they minimise
+    (`patient_optimal`);
+  * what fails with a zero scale entry (`zero_scale_unscaling_not_injective`, `zero_scale_point_unreachable`,
+    `zero_scale_transfer_counterexample`); lengths are never compared by the code
+    (`scaling_wrong_length_not_refused`, `unscaling_wrong_length_not_refused`).
+
 NOT proved (outside the model — scipy's Powell line search): "optimisation-based personalisation never returns a
-point whose objective is worse than that of its starting point".  That clause is monitored on the real code by
-`harness/c17_personalize.py` and is labelled partial in the manifest.
+point whose objective is worse than that of its starting point" *in standardized coordinates*, i.e. the hypothesis of
+`patient_not_worse`.  That clause is monitored on the real code by `harness/c17_personalize.py` and is labelled
+partial in the manifest.
 Floating point: the theorems are over a linearly ordered field; finiteness of the estimates is checked on the
 real code only.
 -/
 import LeaspyVerif.Model.Personalize
+import LeaspyVerif.Model.Scalings
 import LeaspyVerif.Lemmas.IndParams
 import LeaspyVerif.Lemmas.Personalize
+import LeaspyVerif.Lemmas.Scalings
 import Mathlib.Algebra.Order.Field.Basic
 import Mathlib.Algebra.BigOperators.Group.List.Basic
 
@@ -175,4 +199,349 @@ example : align ["001", "1e3"] [("tau".toList, [[(70 : Int)], [71]])]
             params := [("001", [("tau".toList, .vec [70])]), ("1e3", [("tau".toList, .vec [71])])],
             shapes := some [("tau".toList, [1])] } := by decide +kernel
 
+/-! ### prior-standardized coordinates of the optimisation (`_AffineScalings1D`) -/
+
+section scalings
+open LeaspyVerif.Scalings
+variable {α : Type}
+
+/-! #### construction -/
+
+/-- Whatever `_AffineScalings1D(...)` accepts has, per variable, a 1-D loc and a 1-D scale of the same length, under the
+    given names in the given order. -/
+theorem mk_valid (raw : List (String × Tns α × Tns α)) :
+    ∀ s, mk? raw = .ok s → Valid s ∧ names s = raw.map (·.1) := by
+  induction raw with
+  | nil =>
+    intro s h
+    simp only [mk?, Except.ok.injEq] at h
+    subst h
+    exact ⟨by intro sc hsc; simp at hsc, rfl⟩
+  | cons a raw ih =>
+    intro s h
+    obtain ⟨n, l, sd⟩ := a
+    simp only [mk?] at h
+    cases hc : checkOne n l sd with
+    | error e => rw [hc] at h; cases h
+    | ok sc =>
+      rw [hc] at h
+      cases hr : mk? raw with
+      | error e => rw [hr] at h; cases h
+      | ok t =>
+        rw [hr] at h
+        simp only [Except.ok.injEq] at h
+        subst h
+        obtain ⟨hv, hn⟩ := ih t hr
+        have hsc : sc.name = n ∧ sc.loc.length = sc.scale.length := by
+          unfold checkOne at hc
+          split at hc
+          · split at hc
+            · simp only [Except.ok.injEq] at hc; subst hc; exact ⟨rfl, by assumption⟩
+            · cases hc
+          · cases hc
+        refine ⟨?_, ?_⟩
+        · intro sc' hm
+          rcases List.mem_cons.mp hm with e | hm'
+          · subst e; exact hsc.2
+          · exact hv sc' hm'
+        · simp only [names] at hn
+          simp [names, hsc.1, hn]
+
+/-- `from_latent_variable`: a 0-d prior mode / stddev becomes a variable of dimension 1. -/
+theorem fromLatent_scalar_prior (n : String) (m sd : α) :
+    fromLatent [(n, Tns.scalar m, Tns.scalar sd)] = .ok [⟨n, [m], [sd]⟩] := by
+  simp [fromLatent, mk?, checkOne, reshape1]
+
+/-! #### slices -/
+
+/-- The slices carry the variable names, in order. -/
+theorem slices_names (s : Scalings α) : (slices s).map (·.1) = names s := slicesFrom_names s 0
+
+/-- The `i`-th slice runs from the sum of the first `i` dimensions to the sum of the first `i+1` dimensions. -/
+theorem slices_start_stop (s : Scalings α) (i : Nat) :
+    (slices s)[i]? = s[i]?.map (fun sc => (sc.name, ((dims s).take i).sum, ((dims s).take (i + 1)).sum)) := by
+  simpa [slices] using slicesFrom_getElem? s 0 i
+
+/-- The width of every slice is the dimension of its variable. -/
+theorem slices_widths (s : Scalings α) : (slices s).map (fun t => t.2.2 - t.2.1) = dims s := slicesFrom_widths s 0
+
+/-- The slices partition `[0, length)`, in order: listing their indices one slice after the other gives `0, 1, …, length-1`. -/
+theorem slices_partition (s : Scalings α) :
+    (slices s).flatMap (fun t => List.range' t.2.1 (t.2.2 - t.2.1)) = List.range (length s) := by
+  rw [List.range_eq_range']
+  exact slicesFrom_partition s 0
+
+/-! #### stack / unstack -/
+
+/-- Stacking a well-shaped point concatenates its values; the result has `len(scalings)` entries. -/
+theorem stack_shaped (s : Scalings α) (hw : WellFormed s) (x : Point α) (hx : Shaped s x) :
+    stack s x = .ok (flat x) ∧ (flat x).length = length s := by
+  obtain ⟨hne, -, hnd⟩ := hw
+  have hkeys : (x.map (·.1)).Nodup := by rw [shaped_names s x hx]; exact hnd
+  have h := stackGo_of_lookup x s x hx (lookup_of_mem_nodup x hkeys)
+  have he : s.isEmpty = false := by
+    cases s with
+    | nil => exact absurd rfl hne
+    | cons _ _ => rfl
+  exact ⟨by simp [stack, h, he], shaped_flat_length s x hx⟩
+
+/-- `unstack (stack x) = x` for a well-shaped `x`. -/
+theorem unstack_stack (s : Scalings α) (hw : WellFormed s) (x : Point α) (hx : Shaped s x) :
+    ∃ v, stack s x = .ok v ∧ v.length = length s ∧ unstack s v = x := by
+  obtain ⟨h1, h2⟩ := stack_shaped s hw x hx
+  refine ⟨flat x, h1, h2, ?_⟩
+  have := unstackFrom_flat s x [] 0 hx rfl
+  simpa [unstack, slices] using this
+
+/-- `stack (unstack v) = v` for a vector of the right length, and `unstack v` is well-shaped:
+    `stack` / `unstack` are inverse bijections between well-shaped points and vectors of length `len(scalings)`. -/
+theorem stack_unstack (s : Scalings α) (hw : WellFormed s) (v : List α) (hl : v.length = length s) :
+    Shaped s (unstack s v) ∧ stack s (unstack s v) = .ok v := by
+  obtain ⟨h1, h2⟩ := unstackFrom_shaped s [] v 0 rfl hl
+  simp only [List.nil_append] at h1 h2
+  have hs : Shaped s (unstack s v) := h1
+  refine ⟨hs, ?_⟩
+  have := (stack_shaped s hw _ hs).1
+  rw [this]
+  exact congrArg _ h2
+
+/-- A mapping lacking one of the variables is refused (`KeyError`), by `stack` and by `scaling`. -/
+theorem stack_missing_name [Sub α] [Div α] (s : Scalings α) (x : Point α) (h : ∃ sc ∈ s, x.lookup sc.name = none) :
+    stack s x = .error .key ∧ scaling s x = .error .key := by
+  have := stackGo_missing x s h
+  simp [stack, scaling, this]
+
+/-- Only the values found under the variables' names matter: order of the mapping and extra entries do not. -/
+theorem stack_lookup_only [Sub α] [Div α] (s : Scalings α) (x y : Point α)
+    (h : ∀ sc ∈ s, x.lookup sc.name = y.lookup sc.name) :
+    stack s x = stack s y ∧ scaling s x = scaling s y := by
+  have := stackGo_congr x y s h
+  simp [stack, scaling, this]
+
+/-! #### scaling / unscaling -/
+
+/-- On a well-shaped point, `scaling` is the coordinate-wise map `x ↦ (x − loc) / scale` on the stacked vector. -/
+theorem scaling_coordinatewise [Sub α] [Div α] (s : Scalings α) (hw : WellFormed s) (x : Point α) (hx : Shaped s x) :
+    scaling s x = .ok (List.zipWith stdz (flat x) (params s)) := by
+  obtain ⟨h1, h2⟩ := stack_shaped s hw x hx
+  have := cat_flat scaleOne stdz scaleOne_eq s hw.1 hw.2.1 (flat x) h2
+  simp [scaling, h1, this]
+
+/-- On a vector of the right length, `unscaling` is the coordinate-wise map `v ↦ loc + scale · v`, split back by slices. -/
+theorem unscaling_coordinatewise [Add α] [Mul α] (s : Scalings α) (hw : WellFormed s) (v : List α)
+    (hl : v.length = length s) :
+    unscaling s v = .ok (unstack s (List.zipWith unstdz v (params s))) := by
+  have := cat_flat unscaleOne unstdz unscaleOne_eq s hw.1 hw.2.1 v hl
+  simp [unscaling, this]
+
+/-- Shape of the standardized vector. -/
+theorem scaling_shape [Sub α] [Div α] (s : Scalings α) (hw : WellFormed s) (x : Point α) (hx : Shaped s x) :
+    ∃ v, scaling s x = .ok v ∧ v.length = length s := by
+  refine ⟨_, scaling_coordinatewise s hw x hx, ?_⟩
+  simp [(stack_shaped s hw x hx).2, params_length s hw.2.1]
+
+/-- Shape of the un-standardized point. -/
+theorem unscaling_shape [Add α] [Mul α] (s : Scalings α) (hw : WellFormed s) (v : List α) (hl : v.length = length s) :
+    ∃ x, unscaling s v = .ok x ∧ Shaped s x := by
+  refine ⟨_, unscaling_coordinatewise s hw v hl, ?_⟩
+  exact (stack_unstack s hw _ (by simp [hl, params_length s hw.2.1])).1
+
+/-- `unscaling (scaling x) = x` when no scale entry is zero. -/
+theorem unscaling_scaling [Field α] (s : Scalings α) (hw : WellFormed s) (hnz : NonzeroScale s)
+    (x : Point α) (hx : Shaped s x) :
+    ∃ v, scaling s x = .ok v ∧ v.length = length s ∧ unscaling s v = .ok x := by
+  obtain ⟨hst, hfl⟩ := stack_shaped s hw x hx
+  have hp := params_length s hw.2.1
+  have hlen : (List.zipWith stdz (flat x) (params s)).length = length s := by simp [hfl, hp]
+  refine ⟨_, scaling_coordinatewise s hw x hx, hlen, ?_⟩
+  rw [unscaling_coordinatewise s hw _ hlen]
+  have hz : ∀ p ∈ params s, p.2 ≠ 0 := by
+    intro p hp'
+    obtain ⟨sc, hsc, hm⟩ := mem_params s p hp'
+    exact hnz sc hsc _ hm
+  rw [zipWith_unstdz_stdz (flat x) (params s) hz (by omega)]
+  obtain ⟨v, hv, -, hu⟩ := unstack_stack s hw x hx
+  rw [hst] at hv
+  cases hv
+  rw [hu]
+
+/-- `scaling (unscaling v) = v` when no scale entry is zero. -/
+theorem scaling_unscaling [Field α] (s : Scalings α) (hw : WellFormed s) (hnz : NonzeroScale s)
+    (v : List α) (hl : v.length = length s) :
+    ∃ x, unscaling s v = .ok x ∧ Shaped s x ∧ scaling s x = .ok v := by
+  have hp := params_length s hw.2.1
+  have hlen : (List.zipWith unstdz v (params s)).length = length s := by simp [hl, hp]
+  obtain ⟨hsh, hst⟩ := stack_unstack s hw _ hlen
+  refine ⟨_, unscaling_coordinatewise s hw v hl, hsh, ?_⟩
+  rw [scaling_coordinatewise s hw _ hsh]
+  have hfl : flat (unstack s (List.zipWith unstdz v (params s))) = List.zipWith unstdz v (params s) := by
+    have := (stack_shaped s hw _ hsh).1
+    rw [hst] at this
+    exact (Except.ok.inj this).symm
+  have hz : ∀ p ∈ params s, p.2 ≠ 0 := by
+    intro p hp'
+    obtain ⟨sc, hsc, hm⟩ := mem_params s p hp'
+    exact hnz sc hsc _ hm
+  rw [hfl, zipWith_stdz_unstdz v (params s) hz (by omega)]
+
+/-! #### optimising in standardized coordinates is the same problem -/
+
+/-- Transfer, standardized → natural: if `v*` minimises the objective the optimiser is handed (`f ∘ unscaling`) over all
+    vectors of the right length, then `unscaling v*` is well-shaped and minimises `f` over all well-shaped points. -/
+theorem transfer_to_natural [Field α] {β : Type} [Preorder β] (s : Scalings α) (hw : WellFormed s) (hnz : NonzeroScale s)
+    (f : Point α → β) (vstar : List α) (hl : vstar.length = length s)
+    (hmin : ∀ v, v.length = length s → ∀ a b, objective f s vstar = .ok a → objective f s v = .ok b → a ≤ b) :
+    ∃ xstar, unscaling s vstar = .ok xstar ∧ Shaped s xstar ∧ ∀ x, Shaped s x → f xstar ≤ f x := by
+  obtain ⟨xstar, hu, hs⟩ := unscaling_shape s hw vstar hl
+  refine ⟨xstar, hu, hs, ?_⟩
+  intro x hx
+  obtain ⟨v, -, hvl, hvu⟩ := unscaling_scaling s hw hnz x hx
+  exact hmin v hvl (f xstar) (f x) (by simp [objective, hu]) (by simp [objective, hvu])
+
+/-- Transfer, natural → standardized: if `x*` minimises `f` over all well-shaped points then `scaling x*` minimises the
+    optimiser's objective over all vectors of the right length, with the same minimal value. -/
+theorem transfer_to_standardized [Field α] {β : Type} [Preorder β] (s : Scalings α) (hw : WellFormed s)
+    (hnz : NonzeroScale s) (f : Point α → β) (xstar : Point α) (hx : Shaped s xstar)
+    (hmin : ∀ x, Shaped s x → f xstar ≤ f x) :
+    ∃ vstar, scaling s xstar = .ok vstar ∧ vstar.length = length s ∧ objective f s vstar = .ok (f xstar) ∧
+      ∀ v, v.length = length s → ∃ b, objective f s v = .ok b ∧ f xstar ≤ b := by
+  obtain ⟨vstar, hsc, hvl, hvu⟩ := unscaling_scaling s hw hnz xstar hx
+  refine ⟨vstar, hsc, hvl, by simp [objective, hvu], ?_⟩
+  intro v hv
+  obtain ⟨x, hu, hs⟩ := unscaling_shape s hw v hv
+  exact ⟨f x, by simp [objective, hu], hmin x hs⟩
+
+/-- The start point: when the initial values are the prior modes, the optimiser starts at `0`. -/
+theorem start_point_zero [Field α] (s : Scalings α) (hw : WellFormed s) (_hnz : NonzeroScale s) :
+    scaling s (modes s) = .ok (List.replicate (length s) 0) := by
+  rw [scaling_coordinatewise s hw _ (shaped_modes s), flat_modes s hw.2.1, ← params_length s hw.2.1]
+  congr 1
+  generalize params s = ps
+  induction ps with
+  | nil => rfl
+  | cons p ps ih => simp [ih, stdz, List.replicate_succ]
+
+/-- `_get_individual_parameters_patient` in natural coordinates: if the optimiser returns a vector of the right length at
+    which the objective it was handed is not worse than at its start `x0` (what the harness monitors for scipy), then the
+    parameters returned are well-shaped and `f` there is not worse than at the initial values. -/
+theorem patient_not_worse [Field α] {β : Type} [Preorder β] (s : Scalings α) (hw : WellFormed s) (hnz : NonzeroScale s)
+    (opt : (List α → Except Scalings.Err β) → List α → List α) (f : Point α → β) (init : Point α) (hi : Shaped s init)
+    (hopt : ∀ x0, scaling s init = .ok x0 →
+      (opt (objective f s) x0).length = length s ∧
+      ∀ a b, objective f s x0 = .ok a → objective f s (opt (objective f s) x0) = .ok b → b ≤ a) :
+    ∃ x0 r, scaling s init = .ok x0 ∧ unscaling s x0 = .ok init ∧
+      patient opt f s init = .ok r ∧ unscaling s (opt (objective f s) x0) = .ok r ∧ Shaped s r ∧ f r ≤ f init := by
+  obtain ⟨x0, hsc, -, hun⟩ := unscaling_scaling s hw hnz init hi
+  obtain ⟨hlen, hle⟩ := hopt x0 hsc
+  obtain ⟨r, hr, hrs⟩ := unscaling_shape s hw _ hlen
+  refine ⟨x0, r, hsc, hun, by simp [patient, hsc, hr], hr, hrs, ?_⟩
+  exact hle (f init) (f r) (by simp [objective, hun]) (by simp [objective, hr])
+
+/-- … and if the optimiser returns a minimiser of the objective it was handed, the parameters returned minimise `f`
+    over all well-shaped points. -/
+theorem patient_optimal [Field α] {β : Type} [Preorder β] (s : Scalings α) (hw : WellFormed s) (hnz : NonzeroScale s)
+    (opt : (List α → Except Scalings.Err β) → List α → List α) (f : Point α → β) (init : Point α) (hi : Shaped s init)
+    (hopt : ∀ x0, scaling s init = .ok x0 →
+      (opt (objective f s) x0).length = length s ∧
+      ∀ v, v.length = length s → ∀ a b, objective f s (opt (objective f s) x0) = .ok a → objective f s v = .ok b → a ≤ b) :
+    ∃ r, patient opt f s init = .ok r ∧ Shaped s r ∧ ∀ x, Shaped s x → f r ≤ f x := by
+  obtain ⟨x0, hsc, -⟩ := scaling_shape s hw init hi
+  obtain ⟨hlen, hmin⟩ := hopt x0 hsc
+  obtain ⟨r, hr, hrs, hrm⟩ := transfer_to_natural s hw hnz f _ hlen hmin
+  exact ⟨r, by simp [patient, hsc, hr], hrs, hrm⟩
+
+/-! #### what fails when a scale entry is 0 (a degenerate prior) -/
+
+/-- one variable of dimension 1 with prior mode 70 and prior standard deviation 0 -/
+def zeroScale : Scalings Rat := [⟨"tau", [70], [0]⟩]
+
+/-- With a zero scale, `unscaling` is not injective: two standardized vectors give the same parameters … -/
+theorem zero_scale_unscaling_not_injective :
+    unscaling zeroScale [1] = .ok [("tau", [70])] ∧ unscaling zeroScale [2] = .ok [("tau", [70])] := by
+  decide +kernel
+
+/-- … it is not surjective: no standardized vector at all stands for `tau = 71`, so `unscaling (scaling x) = x` fails
+    whatever value the division by zero is given … -/
+theorem zero_scale_point_unreachable (v : List Rat) : unscaling zeroScale v ≠ .ok [("tau", [71])] := by
+  match v with
+  | [] => decide +kernel
+  | [a] =>
+    have : unscaling zeroScale [a] = .ok [("tau", [70])] := by
+      simp [unscaling, cat, catParts, zeroScale, slices, slicesFrom, dim, slice, unscaleOne, bcast, unstack]
+    rw [this]; decide +kernel
+  | a :: b :: w =>
+    have : unscaling zeroScale (a :: b :: w) = .ok [("tau", [70])] := by
+      simp [unscaling, cat, catParts, zeroScale, slices, slicesFrom, dim, slice, unscaleOne, bcast, unstack]
+    rw [this]; decide +kernel
+
+/-- … and the transfer fails: every vector minimises the (constant) objective in standardized coordinates, while the
+    point it stands for does not minimise `f`. -/
+theorem zero_scale_transfer_counterexample :
+    ∃ (f : Point Rat → Nat) (vstar : List Rat), vstar.length = length zeroScale ∧
+      (∀ v, v.length = length zeroScale → ∀ a b, objective f zeroScale vstar = .ok a → objective f zeroScale v = .ok b → a ≤ b) ∧
+      ¬ ∃ xstar, unscaling zeroScale vstar = .ok xstar ∧ ∀ x, Shaped zeroScale x → f xstar ≤ f x := by
+  refine ⟨fun x => if x = [("tau", [71])] then 0 else 1, [0], rfl, ?_, ?_⟩
+  · intro v hv a b ha hb
+    have h1 : objective (fun x : Point Rat => if x = [("tau", [71])] then 0 else 1) zeroScale [0] = .ok 1 := by
+      decide +kernel
+    rw [h1] at ha
+    cases ha
+    match v, hv with
+    | [c], _ =>
+      have : unscaling zeroScale [c] = .ok [("tau", [70])] := by
+        simp [unscaling, cat, catParts, zeroScale, slices, slicesFrom, dim, slice, unscaleOne, bcast, unstack]
+      simp only [objective, this] at hb
+      cases hb
+      decide
+  · rintro ⟨xstar, hu, hmin⟩
+    have h2 : unscaling zeroScale [0] = .ok [("tau", [70])] := by decide +kernel
+    rw [h2] at hu
+    cases hu
+    have := hmin [("tau", [71])] ⟨rfl, rfl, trivial⟩
+    revert this
+    decide +kernel
+
+/-! #### a vector or mapping of the wrong length is not always refused -/
+
+/-- The code never compares lengths: slices clamp and 1-element pieces broadcast.  A mapping whose `tau` has two entries
+    and whose `xi` has one is accepted where both variables have dimension 1 — the extra entry shifts `xi` away. -/
+theorem scaling_wrong_length_not_refused :
+    scaling ([⟨"tau", [70], [5]⟩, ⟨"xi", [0], [1/2]⟩] : Scalings Rat) [("tau", [75, 80]), ("xi", [1])] = .ok [1, 160] := by
+  decide +kernel
+
+/-- A too short standardized vector is accepted when the missing piece can broadcast. -/
+theorem unscaling_wrong_length_not_refused :
+    unscaling ([⟨"tau", [2], [1/2]⟩, ⟨"sources", [1, -1], [2, 4]⟩] : Scalings Rat) [1, 2]
+      = .ok [("tau", [5/2]), ("sources", [5, 7])] := by
+  decide +kernel
+
+/-! #### non-vacuity -/
+
+/-- a model with two sources: DAG order `sources, tau, xi` -/
+def demo : Scalings Rat := [⟨"sources", [0, 0], [1, 1]⟩, ⟨"tau", [79], [6]⟩, ⟨"xi", [0], [1/2]⟩]
+
+example : fromLatent [("sources", Tns.vec [0, 0], Tns.vec [1, 1]), ("tau", Tns.scalar (79 : Rat), Tns.scalar 6),
+    ("xi", Tns.vec [0], Tns.vec [1/2])] = .ok demo := by decide +kernel
+example : mk? [("tau", Tns.scalar (79 : Rat), Tns.scalar 6)] = .error .assert := by decide +kernel
+example : mk? [("tau", Tns.vec [(79 : Rat)], Tns.vec [6, 7])] = .error .assert := by decide +kernel
+example : WellFormed demo ∧ NonzeroScale demo := by
+  refine ⟨⟨by decide, ?_, by decide⟩, ?_⟩
+  · intro sc h; simp [demo] at h; rcases h with rfl | rfl | rfl <;> rfl
+  · intro sc h c hc
+    simp [demo] at h
+    rcases h with rfl | rfl | rfl <;> simp at hc <;> subst hc <;> norm_num
+example : Shaped demo [("sources", [1, -1]), ("tau", [85]), ("xi", [1/4])] := ⟨rfl, rfl, rfl, rfl, rfl, rfl, trivial⟩
+example : slices demo = [("sources", 0, 2), ("tau", 2, 3), ("xi", 3, 4)] ∧ length demo = 4 := by decide +kernel
+example : scaling demo [("sources", [1, -1]), ("tau", [85]), ("xi", [1/4])] = .ok [1, -1, 1, 1/2] := by decide +kernel
+example : unscaling demo [1, -1, 1, 1/2] = .ok [("sources", [1, -1]), ("tau", [85]), ("xi", [1/4])] := by decide +kernel
+example : scaling demo [("xi", [1/4]), ("extra", [9]), ("tau", [85]), ("sources", [1, -1])] = .ok [1, -1, 1, 1/2] := by
+  decide +kernel
+example : scaling demo (modes demo) = .ok [0, 0, 0, 0] := by decide +kernel
+example : scaling demo [("tau", [85]), ("xi", [1/4])] = .error .key := by decide +kernel
+example : scaling ([] : Scalings Rat) [] = .error .runtime := by decide +kernel
+/-- an optimiser that moves to a better point: the hypotheses of `patient_not_worse` are satisfiable -/
+example : patient (fun _ _ => [0, 0, 1, 0]) (fun x => if x = [("sources", [0, 0]), ("tau", [85]), ("xi", [0])] then 0 else 1)
+    demo (modes demo) = .ok [("sources", [0, 0]), ("tau", [85]), ("xi", [0])] := by decide +kernel
+
+end scalings
 end LeaspyVerif.C17
